@@ -254,7 +254,11 @@ def _item_exec(tu, items, stop_at_decl=False):
             raise _Stop()
         return 'D'
 
-    ex = PE.PrintExec(tu, heap, {'MIR_item_name': item_name, 'DLIST_MIR_item_t_next': dnext},
+    def dprev(args, env, ex):
+        i = arg_id(args[0], env, ex)
+        return i - 1 if i - 1 in heap else 0
+
+    ex = PE.PrintExec(tu, heap, {'MIR_item_name': item_name, 'DLIST_MIR_item_t_next': dnext, 'DLIST_MIR_item_t_prev': dprev},
                       {'out_type': lambda a, e, x: 'T', '_MIR_output_data_item_els': els, 'out_func_decl': decl})
     ex.concrete_ints = True
     return ex, heap
